@@ -31,6 +31,8 @@ var hsConfigs = []hsConfig{
 	{"no-schemes", []string{"none"}, []string{"none", "tls"}, []string{}},
 	{"dup-options", []string{"none", "none"}, []string{"none", "tls", "tls"}, []string{"guest", "guest"}},
 	{"comp-extra-negotiated", []string{"none", "gzip"}, []string{"none", "tls"}, []string{"guest"}},
+	// nothing to offer for compression while only TLS is acceptable: the session must fail, not skip negotiation (seed C10-e)
+	{"tls-only-comp-empty", []string{"gzip"}, []string{"tls"}, []string{"plain"}},
 }
 
 var hsAuthPatterns = [][]interface{}{
